@@ -242,7 +242,7 @@ func c04Scenario(name, store string, bound int) schedx.Scenario {
 					if j == tr.Thread || o.Path != t.Path {
 						continue
 					}
-					success := !o.Res.OK && o.Res.HTTPStatus == 302 && o.Res.Location != "" && !strings.HasPrefix(o.Res.Location, "https://idp.test")
+					success := !o.Res.OK && world.IsRedirect(o.Res.HTTPStatus) && o.Res.Location != "" && !strings.HasPrefix(o.Res.Location, "https://idp.test")
 					if success && t.Start > o.Ret {
 						viols = append(viols, schedx.Violation{Signature: "second-exchange-after-successful-login scenario=" + name,
 							Message: fmt.Sprintf("thread %d started (step %d) after thread %d had completed the login (step %d) and still sent a token request", tr.Thread, t.Start, j, o.Ret)})
